@@ -79,6 +79,13 @@ fn script_alphabet(rng: &mut Rng) -> Vec<Script> {
         vec![0x00],
         vec![0x00, 0x00, 0x00, 0x00, 0x00, 0x00, 0x00, 0x00, 0x01],
         vec![0x50; 20],
+        // args that continue a shorter searched prefix with long runs of 0xff: they sort behind
+        // every descending start key that pads the prefix with too few 0xff bytes
+        [vec![0xa1], vec![0xff; 16]].concat(),
+        [vec![0xa1], vec![0xff; 17]].concat(),
+        [vec![0xa1, 0xb2], vec![0xff; 40]].concat(),
+        vec![0xff; 21],
+        [vec![0x50; 20], vec![0xff; 70]].concat(),
     ];
     let mut out = Vec::new();
     let n = rng.range(3, 9);
